@@ -20,7 +20,7 @@ SEMANTIC = [
     'possible arithmetic underflow/overflow', 'possible division by zero',
     'decreases not satisfied', 'loop ensures not satisfied', 'loop invariant not satisfied',
     'could not prove termination', 'unreachable', 'possible bit shift underflow/overflow',
-    'requirement not satisfied', 'assert_by_compute',
+    'requirement not satisfied', 'assert_by_compute', 'unable to prove post-condition of closure',
 ]
 SAFETY_KINDS = ('precondition not satisfied', 'possible arithmetic', 'possible division',
                 'decreases not satisfied', 'could not prove termination', 'possible bit shift')
